@@ -673,8 +673,9 @@ def flow_bucket(sel):
     return 'extract_function/flow:%s:%s' % ('nested' if sel.get('depth') else 'body', '+'.join(comp) or 'simple')
 
 
-def flow_judge(ctx, r):
-    """one record of gen.refactor_flow (worker or corpus) -> counts and failures"""
+def flow_judge(ctx, r, origin='generated program'):
+    """one record of gen.refactor_flow (worker or corpus) -> counts and failures; a corpus input and a generated
+    one that fail alike are reported separately (one replay each)"""
     if r.get('rec') != 'case':
         ctx.count('generator-rejects', None, nontrivial=False, bucket=str(r.get('detail'))[:60])
         return
@@ -692,7 +693,7 @@ def flow_judge(ctx, r):
               sample={'request': {'start': sel['start'], 'until': sel['until'], 'kinds': sel.get('kinds')}})
     if r['status'] == 'no-compile':
         case = flow_case(r['source'], r['entry'], sel, [], ['flow'] + list(sel.get('kinds', [])))
-        fail(ctx, 'oracle-compile', 'extract_function returned a program that does not compile', case,
+        fail(ctx, 'oracle-compile', 'extract_function returned a program that does not compile (%s)' % origin, case,
              observed={'error': r['error'], 'new_code': r['new_code']})
         return
     covered = r['covered'] == r['need']
@@ -702,7 +703,7 @@ def flow_judge(ctx, r):
         for f in r['failures']:
             case = flow_case(r['source'], r['entry'], sel, [f['args']] if f['args'] else [],
                              ['flow'] + list(sel.get('kinds', [])))
-            fail(ctx, 'oracle-equiv', 'extract_function changed the behaviour of the function', case,
+            fail(ctx, 'oracle-equiv', 'extract_function changed the behaviour of the function (%s)' % origin, case,
                  expected={'outcome': f['old_outcome']},
                  observed={'args': f['args'], 'old_outcome': f['old_outcome'], 'new_outcome': f['new_outcome'],
                            'new_code': r['new_code']})
@@ -766,7 +767,7 @@ def flow_corpus(ctx, sink=None):
         if c.get('stream') != 'flow':
             continue
         flow_judge(ctx, flow_one(c['source'], c['entry'], {'start': c['start'], 'until': c['until']}, c['args'],
-                                 sink))
+                                 sink), origin='corpus/C06/' + os.path.basename(path))
 
 
 class FlowJob:
